@@ -12,15 +12,17 @@ from vk import models as M
 ID = "C18"
 LEVEL = "exploration"
 RULE = (
-    "Hypothesis draws VCF texts with a full header (contigs, INFO SOMATIC/DP, FORMAT GT/AD/DP, FILTERs, optional PEDIGREE "
-    "Derived/Original), 1..3 samples, 0..60 (quick) biallelic records on 1..3 contigs (SNVs and indels; GT 0/0, 0/1, 1/0, 1/1, "
-    "0|1, ./.; AD/DP present, absent from FORMAT, or '.'; SOMATIC flag; FILTER PASS/other), sample/normal selectors by name or "
-    "index (incl. conflicting with PEDIGREE), min_depth, skip_somatic, zygosity_freq, and range tables over the same contigs. "
-    "Oracle: a line-by-line interpretation in the harness (documented sample precedence; start = POS-1; depth = DP else sum "
-    "AD; alt_count = AD[1]; alt_freq; zygosity from GT; filters on the normal when paired), load_het_snps = exactly the "
-    "germline-heterozygous non-somatic records, BAF per range = median of mirrored het frequencies (NaN when none), TumorBoost "
-    "and purity formulas. Records with missing fields are only required to be finite. Non-trivial = a file with >= 1 het, >= 1 "
-    "hom and >= 1 filtered record and a range holding >= 2 hets; distinct = distinct case JSON."
+    "Hypothesis draws VCF texts with a full header (contigs, INFO SOMATIC/DP, FORMAT GT/AD/DP, FILTERs, optional "
+    "PEDIGREE Derived/Original), 1..3 samples, 0..60 (quick) biallelic records on 1..3 contigs (SNVs and indels; "
+    "GT 0/0, 0/1, 1/0, 1/1, 0|1, ./.; AD/DP present, absent from FORMAT, or '.'; SOMATIC flag; FILTER "
+    "PASS/other), sample/normal selectors by name or index (incl. conflicting with PEDIGREE), min_depth, "
+    "skip_somatic, zygosity_freq, and range tables over the same contigs. A third of the cases move records and "
+    "ranges to 2.4e8 or beyond 2^31. Oracle: a line-by-line interpretation in the harness (documented sample "
+    "precedence; start = POS-1; depth = DP else sum AD; alt_count = AD[1]; alt_freq; zygosity from GT; filters on "
+    "the normal when paired), load_het_snps = exactly the germline-heterozygous non-somatic records, BAF per "
+    "range = median of mirrored het frequencies (NaN when none), TumorBoost and purity formulas. Records with "
+    "missing fields are only required to be finite. Non-trivial = a file with >= 1 het, >= 1 hom and >= 1 "
+    "filtered record and a range holding >= 2 hets; distinct = distinct case JSON."
 )
 QUICK = {"examples": 800, "shards": 16, "budget_s": 400}
 THOROUGH = {"examples": 16000, "shards": 16, "budget_s": 3000}
